@@ -11,11 +11,12 @@ ASSUME Defects = DefectSet
 \* header flavours (type, minor version, flag octet): not a full product, the random
 \* driver on the Go side covers all 3 x 2 x 256 combinations
 Flavours == { [ty |-> 1, min |-> 0, fl |-> 0], [ty |-> 2, min |-> 1, fl |-> 1],
-              [ty |-> 3, min |-> 0, fl |-> 5], [ty |-> 1, min |-> 1, fl |-> 254] }
+              [ty |-> 3, min |-> 0, fl |-> 5], [ty |-> 1, min |-> 1, fl |-> 255] }
 \* Chaos handler: replies exactly once, with or without a continuation; RESTART only without
 ChaosOps == { <<"reply">>, <<"next", "reply">>, <<"restart">> }
-OkPackets  == { [sid |-> s, seq |-> q, ty |-> f.ty, min |-> f.min, fl |-> f.fl, rd |-> "ok", ops |-> o] :
-                s \in SID, q \in SEQS, f \in Flavours, o \in ChaosOps }
+OkPackets  == { p \in { [sid |-> s, seq |-> q, ty |-> f.ty, min |-> f.min, fl |-> f.fl, rd |-> "ok", ops |-> o] :
+                         s \in SID, q \in SEQS, f \in Flavours, o \in ChaosOps } :
+                p.ops = <<"restart">> => p.ty = 1 }       \* RESTART is an authentication status
 \* packets the reader refuses: one flavour is enough for the state machine
 BadPackets == { [sid |-> s, seq |-> q, ty |-> 1, min |-> 0, fl |-> f, rd |-> c, ops |-> <<"reply">>] :
                 s \in SID, q \in {1, 3}, f \in {0, 1}, c \in {"short", "badhdr", "oversize", "mismatch"} }
